@@ -104,6 +104,12 @@ class C07(CacheProp):
                                          tr.val_set_time[v] + tr.val_ttl[v] - now if tr.val_ttl[v] else 0))
             if op[0] == "set" and int(op[5]) < 0 and res[:1] != ["false"]:
                 fails.append("op %d: SetWithTTL with negative ttl returned %s" % (st["n"], res))
+            if op[0] == "get" and res[1:2] == ["true"] and tr.val_ttl.get(int(res[0]), 0) < 0:
+                fails.append("op %d: Get returned value %s, whose SetWithTTL had a negative ttl (it must store nothing)" % (st["n"], res[0]))
+            if op[0] == "iter":
+                for x in res:
+                    if x != "-" and tr.val_ttl.get(int(x), 0) < 0:
+                        fails.append("op %d: IterValues yielded value %s, whose SetWithTTL had a negative ttl" % (st["n"], x))
             if op[0] == "get" and res[1:2] == ["true"]:
                 v = int(res[0])
                 if v in tr.val_ttl and tr.val_ttl[v] > 0 and now > tr.val_set_time[v] + tr.val_ttl[v]:
